@@ -171,7 +171,8 @@ fn run_inner(rng: &mut Rng, dir: &str) -> CaseOut {
     fopts.hybrids = fopts.max_quant_depth > 0;
     if extended {
         fopts.wild_props = vec![lp.to_string(), lq.to_string()];
-        fopts.domains = vec![ld.to_string()];
+        // (a label may be used as a proposition and as a domain)
+        fopts.domains = vec![ld.to_string(), lp.to_string()];
         fopts.domain_pct = 40;
     }
     // now and then a file without any formula (comments / blank lines only)
@@ -201,15 +202,19 @@ fn run_inner(rng: &mut Rng, dir: &str) -> CaseOut {
     let k = forms.iter().map(|f| f.quant_depth()).max().unwrap_or(0) as u16;
     // error injection
     let error_kind: Option<&str> = if rng.chance(1, 4) {
-        Some(*rng.pick(&["missing_model", "malformed_model", "missing_formulae", "invalid_formula", "unknown_proposition", "free_variable", "missing_label", "missing_context_archive", "context_not_zip"]))
+        Some(*rng.pick(&["missing_model", "malformed_model", "missing_formulae", "invalid_formula", "unknown_proposition", "free_variable", "missing_label", "missing_context_archive", "context_not_zip", "extended_syntax_without_context"]))
     } else {
         None
     };
+    // (wild-cards without -e are an error only for runs that are otherwise plain)
+    let error_kind = if error_kind == Some("extended_syntax_without_context") && extended { None } else { error_kind };
     let mut file_texts = texts.clone();
     match error_kind {
         Some("invalid_formula") => file_texts.push("a & & (".to_string()),
         Some("unknown_proposition") => file_texts.push("EF no_such_variable_1".to_string()),
         Some("free_variable") => file_texts.push("EF {x}".to_string()),
+        // wild-cards / domains in the file but no -e on the command line (only meaningful for plain runs)
+        Some("extended_syntax_without_context") => file_texts.push(rng.pick(&["EF %p%", "!{x} in %d%: AX {x}", "a | %q%"]).to_string()),
         _ => {}
     }
     // formula file with decorations
